@@ -12,6 +12,7 @@ import (
 	"fmt"
 	"io"
 	"os"
+	"os/exec"
 	"sort"
 	"strings"
 
@@ -563,6 +564,42 @@ func main() {
 	} else {
 		run.Set("race_pass", "skipped: no -race build available")
 	}
+	// STARTTLS cannot run under the controlled scheduler (crypto/tls is not instrumented): the switch
+	// of the connection is covered by a free-running -race pass over honest upgrades with the real
+	// TLS peer of C17's harness (supplementary: true positives only, silence proves nothing)
+	if os.Getenv("VERIF_RACE_BIN") != "" && os.Getenv("C13_SKIP_STARTTLS_RACE") == "" {
+		tier := "quick"
+		if run.Thorough() {
+			tier = "thorough"
+		}
+		scratch, _ := os.MkdirTemp("", "verif-c13-starttls")
+		cmd := exec.Command("/verif/check", "C17", "--tier", tier)
+		cmd.Env = append(os.Environ(), "C17_RACE_ONLY=1", "VERIF_WANT_RACE=1", "VERIF_OUT="+scratch)
+		out, err := cmd.Output()
+		os.RemoveAll(scratch)
+		text := string(out)
+		if err != nil || strings.Contains(text, "STARTTLS-RACE-ERROR") || !strings.Contains(text, "STARTTLS-RACE-PASS") {
+			run.EngineError("STARTTLS race pass failed: %v\n%s", err, text)
+		}
+		n := 0
+		for _, l := range strings.Split(text, "\n") {
+			if strings.HasPrefix(l, "STARTTLS-RACE-PASS upgrades=") {
+				fmt.Sscanf(l, "STARTTLS-RACE-PASS upgrades=%d", &n)
+			}
+			if !strings.HasPrefix(l, "STARTTLS-RACE ") {
+				continue
+			}
+			f := strings.SplitN(strings.TrimPrefix(l, "STARTTLS-RACE "), "\t", 2)
+			rep := ""
+			if len(f) > 1 {
+				rep = strings.ReplaceAll(f[1], "\\n", "\n")
+			}
+			run.Violation("data-race:starttls:"+f[0], map[string]interface{}{"scenario": "free-running STARTTLS upgrades (C17 harness, -race)", "report": rep,
+				"note": "found by a free-running pass: re-run the check to reproduce"})
+		}
+		run.Set("starttls_race_pass_upgrades", int64(n))
+		run.AddEvals(int64(n))
+	}
 	run.States = int64(2 * len(scs))
 	run.NontrivialN(int64(outcomes))
 	run.Set("delay_bound", int64(bound))
@@ -572,5 +609,6 @@ func main() {
 	run.Rule = "scenario = N caller threads + reactive scripted server (+ environment-chosen connection drop: clean close or reset before any command, or inside a tagged completion line) + the client's own reader/helper goroutines, all under the controlled scheduler with a scheduling point before every lock, after every unlock, at every channel operation, select, spawn and connection read/write; DFS over all schedules with at most `preemption_bound` deviations (preemptions and non-default environment answers). distinct_nontrivial = distinct (scenario, verdict, per-command outcome vector) observed"
 	run.Assume("data races themselves are not visible to a cooperative scheduler; this check decides their behavioural consequences (lost/duplicate completions, hangs, panics); see DESIGN §3.2.6")
 	run.Assume("in-memory connection: writes never block")
+	run.Assume("STARTTLS: only a free-running -race pass over honest upgrades (sampling, supplementary); everything else is exhaustive within the stated bounds")
 	run.Finish()
 }
